@@ -354,12 +354,22 @@ func ruleTransactionalDecls(c *Ctx, rule string) {
 				exits := 0
 				var walk func(list []ast.Stmt, cleared bool)
 				walk = func(list []ast.Stmt, cleared bool) {
-					for _, st := range list {
+					for si, st := range list {
 						if isClear(st) {
 							cleared = true
 						}
 						switch x := st.(type) {
 						case *ast.ReturnStmt:
+							// `c.Errorf(...); return x`: the error helper panics, the return is never reached
+							if si > 0 {
+								if es, ok := list[si-1].(*ast.ExprStmt); ok {
+									if call, ok := es.X.(*ast.CallExpr); ok {
+										if fn := calleeOf(info, call); fn != nil && isErrorHelper(fn) {
+											continue
+										}
+									}
+								}
+							}
 							if x.Pos() > mpos {
 								exits++
 								if !cleared {
